@@ -238,6 +238,20 @@ func c04Scenarios(tier string) []*Scenario {
 		sc.ID += "-start(m)"
 		sc.Procs["a"].Hold = func(w *World, pc int) bool { return !mUp(w) }
 	}
+	// the victim is a daemon (its launcher has exited 0, it is reported Launched) with a shutdown command that
+	// works, fails or hangs: the project still comes down with the trigger's code
+	for _, beh := range []string{"ok", "fail", "hang"} {
+		v := ok("v")
+		v.Extra = []string{"is_daemon: true", "shutdown:", "  command: \"stop-v\"", "  timeout_seconds: 2"}
+		sc := add([]GNode{eof, v})
+		sc.ID += "-daemon-stopcmd-" + beh
+		if sc.Aux == nil {
+			sc.Aux = map[string][]string{}
+		}
+		sc.Aux["stop-v"] = []string{beh}
+		sc.TickBudget = 3
+		sc.Procs["a"].Hold = func(w *World, pc int) bool { return w.lastStat["v"] != "Launched" }
+	}
 	// trigger kind x victim kind grid: the code must always be that of the trigger
 	{
 		trig := func(kind string) []GNode {
